@@ -737,8 +737,42 @@ fn api_soup_job(ctx: &Ctx, job: usize, sequences: u64, len: usize) -> Stats {
     st
 }
 
+/// Routes to one function through quantifiers on BIG diagrams: f = if x0 then parity(x1..xk) else
+/// (x1 & s) — the then-branch is a wide block that does not mention s, the bound variable sits
+/// behind it. `exists [s]`, `exists_impl s`, `all [s]` and the direct constructions must meet in
+/// one diagram each (equal, equal hash).
+fn big_diagram_routes(st: &mut Stats, k: usize) {
+    let env: BDDEnv<usize> = BDDEnv::new();
+    util::budget(u64::MAX, 1000);
+    let s = 500usize;
+    let parity = (1..=k).rev().fold(env.mk_const(false), |acc, i| env.xor(env.var(i), acc));
+    for (shape, f, by_exists, by_all) in [
+        ("then-branch", env.ite(env.var(0), Rc::clone(&parity), env.and(env.var(1), env.var(s))), env.ite(env.var(0), Rc::clone(&parity), env.var(1)), env.and(env.var(0), Rc::clone(&parity))),
+        ("else-branch", env.ite(env.var(0), env.or(env.var(2), env.var(s)), Rc::clone(&parity)), env.ite(env.var(0), env.mk_const(true), Rc::clone(&parity)), env.ite(env.var(0), env.var(2), Rc::clone(&parity))),
+    ] {
+        st.evals += 1;
+        st.bump("route_quantifiers-on-big-diagrams");
+        let case = json!({"kind": "big-diagram", "k": k, "shape": shape});
+        let routes: Vec<(&str, D, &D)> = vec![("exists([s], f)", env.exists(vec![s], Rc::clone(&f)), &by_exists), ("exists_impl(s, f)", env.exists_impl(&s, Rc::clone(&f)), &by_exists), ("all([s], f)", env.all(vec![s], Rc::clone(&f)), &by_all), ("exists([s, s], f)", env.exists(vec![s, s], Rc::clone(&f)), &by_exists)];
+        let mut ok = true;
+        for (name, got, want) in routes {
+            if got.as_ref() != want.as_ref() || got.get_hash() != want.get_hash() {
+                st.violate("c02.canonical", "C02:big-diagram:routes-differ".into(), format!("f = if x0 then .. else .. with a parity of {} variables on the {}: {} and the direct construction of the same function are different diagrams (the result still tests s: {})", k, shape, name, crate::conv::labels_of(&got).contains(&s)), case.clone());
+                ok = false;
+                break;
+            }
+        }
+        if ok {
+            st.nt.insert(mix(0xb19d, k as u64 * 2 + (shape == "then-branch") as u64));
+        }
+    }
+}
+
 pub fn run(ctx: &Ctx) -> (Stats, Spec) {
     let mut st = Stats::new();
+    for k in ctx.tier.pick(vec![13usize, 14], vec![12, 13, 14, 15, 16]) {
+        big_diagram_routes(&mut st, k);
+    }
     let (seqs, slen) = ctx.tier.pick((400u64, 40usize), (20_000u64, 60usize));
     let parts = super::common::with_stderr_gagged(|| util::par_jobs(16, |job| api_soup_job(ctx, job, seqs, slen)));
     st.merge(crate::report::merge_all(parts));
